@@ -28,6 +28,34 @@ CHECKS = {
         'quick': {'shards': 8, 'timeout': 300},
         'thorough': {'shards': 16, 'timeout': 1800},
     },
+    'C04': {
+        'pkg': 'internal/multiplex', 'test': 'TestVerif_C04', 'level': 'exploration',
+        'technique': 'runtime differential monitor: real encoder/decoder vs independent reference codec and frozen golden vectors over every payload length, under the race detector',
+        'level_text': 'Runs the real obfuscate/deobfuscate on every payload length 1..16132 for all four methods (both buffer placements, sequence numbers on both sides of the padding '
+                      'threshold, random ids/flags/keys) and checks: own round trip, decoding by an independently written codec, decoding of reference-encoded messages with arbitrary '
+                      'padding, byte-exact equality with the reference encoder where the encoding is deterministic, the size limit, and frozen golden vectors.',
+        'level_note': 'Assumes ' + A_RACE + ' and that verifkit/refcodec.go (written from the layout description, cross-checked by golden vectors frozen at the pinned commit) is a correct reading of the Cloak v2 layout.',
+        'rule': 'case = (method, payload length, sequence-number class, stream id, closing flag, key, buffer placement); every length 1..max per method; '
+                'quick: one or two sequence classes per length (rotating), thorough: all nine classes and repeated padding draws; distinct by construction (enumerated); '
+                'non-trivial: every case runs all oracles (round trip, reference decode, foreign decode, size limit, byte-exact when deterministic)',
+        'exhaustive': True, 'exhaustive_scope': 'payload lengths 1..16132 x 4 methods x 2 placements',
+        'assumptions': [A_RACE, A_HARNESS],
+        'quick': {'shards': 16, 'timeout': 600},
+        'thorough': {'shards': 16, 'timeout': 3600},
+    },
+    'C11': {
+        'pkg': 'internal/multiplex', 'test': 'TestVerif_C11', 'level': 'exploration',
+        'technique': 'runtime monitor: mutation of genuine messages fed to the real receive path, state-snapshot + return-value + delivery oracle, crash attribution per child process, race detector',
+        'level_text': 'Feeds the real Session receive path with every single-bit flip of genuine messages (all positions for payloads <= 1000 bytes, header/tail plus sampled positions for the maximum size), '
+                      'all short truncations/extensions, random multi-byte corruptions, messages sealed under other keys or methods, and arbitrary byte strings (all four methods, ordered and datagram sessions); '
+                      'a processed modification is detected by return value, by a before/after snapshot of the stream table, counters and accept queue, and by what a valid frame delivers afterwards.',
+        'level_note': 'Assumes ' + A_RACE + '. Cryptographic forgery is out of reach: only malleability exercisable by editing bytes without keys is tested. State is read through the identifiers the repository tests already use (streams, acceptCh, streamCount).',
+        'rule': 'case = (AEAD method, payload size in {1,2,17,100,1000,max}, sequence number in {0,3,7}) with all bit flips/truncations/extensions/corruptions of one genuine message, or a batch of random byte strings '
+                '(method x ordered/unordered); counters give the number of injections; distinct by construction; non-trivial = every case performs >= 1000 injections',
+        'assumptions': [A_RACE, A_HARNESS],
+        'quick': {'shards': 16, 'timeout': 600},
+        'thorough': {'shards': 16, 'timeout': 3600},
+    },
 }
 
 NOT_APPLICABLE = {p: 'check not built yet in this round (the design in DESIGN.md section 3 applies; runtime monitoring can decide it)'
